@@ -231,6 +231,19 @@ def run_c10(tier, seed, pid="C10"):
     for t in rng.sample(good, min(10 if tier == "quick" else 80, len(good))):
         for g in ("dbc", "can_c"):
             scenarios.append((g, t, "superset", "api"))
+    # output files below the output directory: a bus name with "/" makes fcp_dbc return <out>/<dir>/<name>.dbc; whether
+    # the sub-directory exists beforehand or not, every returned file must end up written
+    for t in rng.sample(good, min(12 if tier == "quick" else 100, len(good))):
+        t2 = json.loads(json.dumps(t))
+        k = 0
+        for im in t2["impls"]:
+            if im["protocol"] != "can":
+                continue
+            im["fields"] = [f for f in im["fields"] if f["name"] != "bus"] + \
+                           [{"name": "bus", "value": {"s": ["chassis/front", "chassis/rear/left", "aux"][k % 3]}}]
+            k += 1
+        for ds in ("absent", "unrelated"):
+            scenarios.append(("dbc", t2, ds, "api"))
     # one manager used twice with different plug-ins: (first generator, second generator, tree of the second call)
     only_dbc = [o["tree"] for o in trees if o["general"] == 1 and o["dbc"] == 0 and o["can_c"] == 1]
     only_c = [o["tree"] for o in trees if o["general"] == 1 and o["can_c"] == 0 and o["dbc"] == 1]
